@@ -62,9 +62,9 @@ def _tlc_phase(prop, models, probes, families, timeout):
             if r.timed_out or (r.error is not None and r.error != "invariant:" + inv):
                 raise Inconclusive("model probe %s: TLC reported %s\n%s" % (label, r.error, r.stdout[-2000:]))
             res = "violated" if r.error else "hold"
-            runs.append({"family": fam, "max_adds": adds, "max_post": post, "variant": "as coded (%s)" % label, "invariants": [inv],
+            runs.append({"family": fam, "max_adds": adds, "max_post": post, "variant": "before the repair (%s)" % label, "invariants": [inv],
                          "distinct": r.distinct, "generated": r.generated, "wall_s": round(r.wall_s, 1), "result": res})
-            log("  model %s/%d/%d as coded: %s %s (%s), %.0fs" % (fam, adds, post, inv, res.upper(), label, r.wall_s))
+            log("  model %s/%d/%d before the repair: %s %s (%s), %.0fs" % (fam, adds, post, inv, res.upper(), label, r.wall_s))
         else:
             gens.append((info, r))
     return states, trans, runs, gens
@@ -112,7 +112,7 @@ def run_build_check(prop, tier, *, models, probes, families, limit, nontrivial, 
                 cid, reason, detail, "\n".join(idx.get(cid, [])[:6])))
     for reason, k in sorted(foreign.items()):
         log("  note: %d cases rejected for '%s' (clause of %s; reported by that property's check)" % (k, reason, OTHER[prop]))
-    # drift: model prediction (builder as coded) vs what the real builder returned
+    # drift: model prediction (the builder as it is in /repo: repairs of D5, D15, D7 applied) vs what the real builder returned
     drift = []
     for cid, obs in idx.items():
         real, pred = build.outcome(obs), by_id[cid]["pred"]
@@ -126,10 +126,10 @@ def run_build_check(prop, tier, *, models, probes, families, limit, nontrivial, 
         key = "%s: model %s / real %s" % (op, d["model"][k] if k < len(d["model"]) else "-", d["real"][k] if k < len(d["real"]) else "-")
         drift_kinds[key] = drift_kinds.get(key, 0) + 1
     for d in drift[:3]:
-        log("DRIFT: %s real=%s model(as coded)=%s %s" % (d["id"], d["real"], d["model"], json.dumps(d["ops"])))
+        log("DRIFT: %s real=%s model=%s %s" % (d["id"], d["real"], d["model"], json.dumps(d["ops"])))
     if drift:
-        log("  drift: %d of %d sequences end differently than the as-coded model predicts (not a verdict): %s" % (len(drift), len(cases), json.dumps(drift_kinds)))
-    # when the tree differs from the as-coded model: does it match the model with the proposed repairs switched on?
+        log("  drift: %d of %d sequences end differently than the model predicts (not a verdict): %s" % (len(drift), len(cases), json.dumps(drift_kinds)))
+    # when the tree differs from the model: does it match the model of the code before the repairs (FixD5 = FixD15 = FixD7 = FALSE)?
     drift_repaired = None
     if drift:
         import concurrent.futures
@@ -137,7 +137,7 @@ def run_build_check(prop, tier, *, models, probes, families, limit, nontrivial, 
 
         def regen(f):
             kw = {k: v for k, v in f.items() if k not in ("fam", "adds", "post", "limit", "workers")}
-            return build.gen(f["fam"], f["adds"], f["post"], fix=build.REPAIRED, workers=1, **kw)[0]
+            return build.gen(f["fam"], f["adds"], f["post"], fix=build.AS_CODED, workers=1, **kw)[0]
         with concurrent.futures.ThreadPoolExecutor(max_workers=4) as ex:
             regs = list(ex.map(regen, exh))
 
@@ -146,7 +146,7 @@ def run_build_check(prop, tier, *, models, probes, families, limit, nontrivial, 
         pred2 = {key(c): c["pred"] for cs2 in regs for c in cs2}
         compared = [d for d in drift if key(by_id[d["id"]]) in pred2]
         drift_repaired = sum(1 for d in compared if pred2[key(by_id[d["id"]])] != d["real"])
-        log("  drift: of the %d drifting sequences of the exhaustive families, %d also differ from the model with the repairs (FixD5, FixD15, FixD7) on" % (
+        log("  drift: of the %d drifting sequences of the exhaustive families, %d also differ from the model of the code before the repairs D5 / D15 / D7" % (
             len(compared), drift_repaired))
     # reproduce: a rejection counts only if a second replay of the same sequence is rejected for the same reason
     confirmed = []
@@ -194,7 +194,7 @@ def run_build_check(prop, tier, *, models, probes, families, limit, nontrivial, 
                    "observations); non-trivial = " + nontrivial.__doc__,
            "exhaustive": exhaustive, "model_runs": model_runs, "families": gen_stats, "observation_lines": len(lines),
            "trace_validation_states": res["states"], "rejected_cases": len(res["bad"]), "rejected_for_this_property": len(mine),
-           "confirmed": len(confirmed), "signatures": sig_count, "known_findings": n_known, "drift": len(drift), "drift_vs_repaired_model": drift_repaired, "drift_first_difference": drift_kinds, "drift_samples": drift[:3],
+           "confirmed": len(confirmed), "signatures": sig_count, "known_findings": n_known, "drift": len(drift), "drift_vs_pre_repair_model": drift_repaired, "drift_first_difference": drift_kinds, "drift_samples": drift[:3],
            "selftest": st}
     vlib.write_evidence(prop, tier, "model_checking", cov, assumptions=list(assumptions) + [
         "node bodies and branch conditions are the harness's own functions: they log the dynamic type they receive, emit a value of a fixed "
@@ -232,14 +232,17 @@ def _violation_or_post(case, obs):
 def c07(tier, repo=None):
     probes = [("D5: addBranch re-types an inferred pass-through", "flow", 2, 0, dict(build.REPAIRED, FixD5=False), "Sound")]
     if tier == "quick":
-        models = [("flow", 2, 0, ["AllOutcome", "Sound", "FrozenMaps"])]
-        fams = [dict(fam="flow", adds=2, post=0), dict(fam="flowend", adds=2, post=0),
+        models = [("flow", 2, 0, ["AllOutcome", "Sound", "FrozenMaps"]), ("flown", 2, 0, ["AllOutcome", "Sound", "FrozenMaps"]),
+                  ("flowio", 3, 0, ["AllOutcome", "Sound", "FrozenMaps"])]
+        fams = [dict(fam="flow", adds=2, post=0), dict(fam="flowend", adds=2, post=0), dict(fam="flown", adds=2, post=0), dict(fam="flowio", adds=3, post=0),
                 dict(fam="flow", adds=4, post=0, br=2, simulate="num=1200", depth=60, limit=3000),
                 dict(fam="flow2", adds=5, post=0, br=2, simulate="num=300", depth=70, limit=3000)]
-        limit = 30000
+        limit = 45000
     else:
-        models = [("flow", 2, 0, ["AllOutcome", "Sound", "FrozenMaps"]), ("flowend", 2, 0, ["AllOutcome", "Sound", "FrozenMaps"])]
-        fams = [dict(fam="flow", adds=2, post=0), dict(fam="flowend", adds=2, post=0),
+        models = [("flow", 2, 0, ["AllOutcome", "Sound", "FrozenMaps"]), ("flowend", 2, 0, ["AllOutcome", "Sound", "FrozenMaps"]),
+                  ("flown", 2, 0, ["AllOutcome", "Sound", "FrozenMaps"]), ("flowio", 3, 0, ["AllOutcome", "Sound", "FrozenMaps"])]
+        fams = [dict(fam="flow", adds=2, post=0), dict(fam="flowend", adds=2, post=0), dict(fam="flown", adds=2, post=0), dict(fam="flowio", adds=3, post=0),
+                dict(fam="flowio", adds=5, post=0, simulate="num=8000", depth=80), dict(fam="flown", adds=4, post=0, br=2, simulate="num=8000", depth=70),
                 dict(fam="flow", adds=3, post=0, simulate="num=20000", depth=60),
                 dict(fam="flowend", adds=4, post=0, br=2, simulate="num=12000", depth=70),
                 dict(fam="flow", adds=5, post=0, br=2, simulate="num=20000", depth=80),
@@ -258,15 +261,17 @@ def c20(tier, repo=None):
               ("D7: a second Compile appends to the handler maps the first runnable shares", "wf", 0, 1, dict(build.REPAIRED, FixD7=False), "FrozenMaps")]
     if tier == "quick":
         models = [("seq", 2, 0, ["AllOutcome", "FrozenMaps"]), ("seqp", 2, 0, ["AllOutcome", "FrozenMaps"]), ("wf", 0, 2, ["AllOutcome", "FrozenMaps"]),
-                  ("flow", 1, 1, ["AllOutcome", "FrozenMaps"])]
-        fams = [dict(fam="seq", adds=2, post=0), dict(fam="seqp", adds=2, post=0), dict(fam="wf", adds=0, post=2), dict(fam="flow", adds=1, post=1),
+                  ("wfin", 3, 0, ["AllOutcome", "FrozenMaps"]), ("flow", 1, 1, ["AllOutcome", "FrozenMaps"])]
+        fams = [dict(fam="seq", adds=2, post=0), dict(fam="seqp", adds=2, post=0), dict(fam="wf", adds=0, post=2), dict(fam="wfin", adds=3, post=0),
+                dict(fam="flow", adds=1, post=1),
                 dict(fam="seqs", adds=2, post=1, simulate="num=240", depth=50, limit=5000),
                 dict(fam="seq", adds=4, post=2, aftererr=2, simulate="num=320", depth=70, limit=8000)]
         limit = 40000
     else:
         models = [("seq", 2, 0, ["AllOutcome", "FrozenMaps"]), ("seqp", 2, 0, ["AllOutcome", "FrozenMaps"]), ("seqs", 1, 1, ["AllOutcome", "FrozenMaps"]),
-                  ("wf", 0, 3, ["AllOutcome", "FrozenMaps"]), ("flow", 2, 1, ["AllOutcome", "FrozenMaps"])]
+                  ("wf", 0, 3, ["AllOutcome", "FrozenMaps"]), ("wfin", 4, 1, ["AllOutcome", "FrozenMaps"]), ("flow", 2, 1, ["AllOutcome", "FrozenMaps"])]
         fams = [dict(fam="seq", adds=2, post=0), dict(fam="seqp", adds=2, post=0), dict(fam="seqs", adds=1, post=1), dict(fam="wf", adds=0, post=3),
+                dict(fam="wfin", adds=4, post=1),
                 dict(fam="flow", adds=2, post=1, timeout=1500),
                 dict(fam="seqs", adds=3, post=1, aftererr=2, simulate="num=2500", depth=60),
                 dict(fam="seqp", adds=4, post=2, aftererr=2, br=2, simulate="num=3000", depth=80),
@@ -278,7 +283,7 @@ def c20(tier, repo=None):
                                "builder and may be followed by repairs; a second Compile may succeed or fail, only the first runnable must not change",
                                "ill-formed = the statement's list as reference predicates (BuildRule.tla AddBad/CompileBad); rejection may come at any "
                                "call up to and including Compile",
-                               "the Workflow front end is only driven with calls that cannot fail (its Add* methods return no error)"])
+                               "Workflow front end: its Add* / SetStaticValue calls return no error value, so refusal is only demanded of Compile and immutability is judged by the probes of the first runnable"])
 
 
 def _replay(prop):
